@@ -49,11 +49,39 @@ noncomputable def qUpper (tol : ℝ) (c' : List ℝ) : ℝ :=
   | [] => 0
   | y :: ys => maxL y ys + tol
 
+theorem getD_eq {β : Type} (l : List β) (d : β) (i : ℕ) (h : i < l.length) :
+    l.getD i d = l[i] := by
+  simp [List.getD_eq_getElem?_getD, List.getElem?_eq_getElem h]
+
 theorem zipWith_map_self {β γ δ : Type} (g : β → γ → δ) (h : β → γ) (l : List β) :
     List.zipWith g l (l.map h) = l.map (fun a => g a (h a)) := by
   induction l with
   | nil => rfl
   | cons a l ih => simp [ih]
+
+/-- the model's `lowers` in terms of `qLower` (the pattern match of the model is passed as `F`
+so that the statement does not depend on the name of the compiled matcher) -/
+theorem lowers_eq (tol : ℝ) (F : List ℝ → ℝ)
+    (hF : ∀ c : List ℝ, F c = match c with
+      | [] => (0 : ℝ)
+      | y :: ys => minL y ys - tol) (cen : List (List ℝ)) :
+    (cen.map (fun c => c.map (fun x => -x))).map F = cen.map (qLower tol) := by
+  rw [List.map_map]
+  apply List.map_congr_left
+  intro c _
+  simp only [Function.comp, hF]
+  rfl
+
+theorem uppers_eq (tol : ℝ) (F : List ℝ → ℝ)
+    (hF : ∀ c : List ℝ, F c = match c with
+      | [] => (0 : ℝ)
+      | y :: ys => maxL y ys + tol) (cen : List (List ℝ)) :
+    (cen.map (fun c => c.map (fun x => -x))).map F = cen.map (qUpper tol) := by
+  rw [List.map_map]
+  apply List.map_congr_left
+  intro c _
+  simp only [Function.comp, hF]
+  rfl
 
 /-- `quadraticCvar` in terms of `centre`, `qLower`, `qUpper` -/
 theorem quadraticCvar_unfold (lam tol precision : ℝ) (maxIter : ℕ) (cols : List (List ℝ)) :
@@ -69,8 +97,10 @@ theorem quadraticCvar_unfold (lam tol precision : ℝ) (maxIter : ℕ) (cols : L
   have hz : List.zipWith (fun (c : List ℝ) b => c.map (fun x => x - b)) cols (cols.map meanR)
       = cols.map centre := zipWith_map_self _ _ _
   unfold quadraticCvar
-  simp only [hz, List.map_map]
-  rfl
+  simp only [hz]
+  rw [lowers_eq tol _ (fun c => by cases c <;> rfl), uppers_eq tol _ (fun c => by cases c <;> rfl)]
+  generalize bisect _ _ _ _ precision maxIter = X
+  cases X <;> rfl
 
 /-- `∑ (f x + a g x + b) = ∑ f + a ∑ g + N b` -/
 theorem sum_affine (xs : List ℝ) (f g : ℝ → ℝ) (a b : ℝ) :
@@ -146,7 +176,7 @@ theorem fn_elementwise (cen : List (List ℝ)) :
   refine ⟨by simp [hxs], ?_⟩
   intro i h' h''
   have hi : i < cen.length := by omega
-  rw [List.getElem_zipWith, List.getD_eq_getElem _ _ hi]
+  rw [List.getElem_zipWith, getD_eq _ _ _ hi]
 
 end PfVerif.C05QCVaRAux
 
@@ -174,8 +204,7 @@ theorem qTarget_lip_aux (xs : List ℝ) (w w' : ℝ) :
     List.sum_le_sum fun x _ => by simpa using relu_lip w w' x
   rw [sum_affine] at hle
   rw [div_le_iff₀ hN, add_mul, div_mul_cancel₀ _ hN.ne']
-  simp only [List.map_const', List.sum_replicate, smul_eq_mul, mul_zero, zero_mul, add_zero]
-    at hle
+  simp only [zero_mul, add_zero] at hle
   linarith
 
 /-- the target function is 1-Lipschitz in `w` (any sample, also the empty one) -/
@@ -288,14 +317,14 @@ theorem quadraticCvar_partial (lam tol precision : ℝ) (maxIter : ℕ) (cols : 
           ((cols.map centre).getD i []) := by
       intro i h1
       have hi : i < cols.length := by simpa using h1
-      rw [List.getD_eq_getElem _ _ (by simpa using hi)]
+      rw [getD_eq _ _ _ (by simpa using hi)]
       simp only [List.getElem_map]
       exact hbr _ (List.getElem_mem hi)
     have hup : ∀ i (h2 : i < ((cols.map centre).map (qUpper tol)).length),
         qTarget ((cols.map centre).map (qUpper tol))[i] ((cols.map centre).getD i []) = 0 := by
       intro i h2
       have hi : i < cols.length := by simpa using h2
-      rw [List.getD_eq_getElem _ _ (by simpa using hi)]
+      rw [getD_eq _ _ _ (by simpa using hi)]
       simp only [List.getElem_map]
       exact qTarget_upper tol htol _
     obtain ⟨hr, hres⟩ := PfVerif.C19.bisect_decreasing_spec (cols.map centre).length
@@ -320,9 +349,18 @@ theorem quadraticCvar_partial (lam tol precision : ℝ) (maxIter : ℕ) (cols : 
     intro i h1 h2
     obtain ⟨r, _, r2, _, r4, r5⟩ := hres i (by simpa using h1) (by simpa using h1)
       (by simpa using h1) (by omega)
-    rw [List.getElem_map, List.getD_eq_getElem _ _ (by simpa using h1), List.getElem_map] at r4
+    rw [List.getElem_map, getD_eq _ _ _ (by simpa using h1), List.getElem_map] at r4
     simp only [List.getElem_zipWith, List.getElem_zip, List.getElem_map]
     exact column_value lam hl cols[i] r om[i] precision r4 r2 r5
+
+/-- **The upper end of the shipped bracket is always on the right side of the root**:
+`qTarget (max(-c') + tol) c' = 0 < 1/(2 lam)` for every column (`0 ≤ tol`, `0 < lam`), so only
+the lower end needs a hypothesis. -/
+theorem qTarget_bracket_upper (lam tol : ℝ) (hl : 0 < lam) (htol : 0 ≤ tol) (c' : List ℝ) :
+    qTarget (qUpper tol c') c' = 0 ∧ qTarget (qUpper tol c') c' < 1 / (2 * lam) := by
+  have h := qTarget_upper tol htol c'
+  refine ⟨h, ?_⟩
+  rw [h]; positivity
 
 /-- the single-column case `cols = [c]` -/
 theorem quadraticCvar_partial_single (lam tol precision : ℝ) (maxIter : ℕ) (c : List ℝ)
@@ -350,17 +388,24 @@ theorem quadraticCvar_bracket_defect :
   have l1 : qLower 0 [0] = 0 := by
     simp [qLower, minL]
   have c2 : centre [0, 2] = [-1, 1] := by
-    simp [centre, meanR, sumL]; norm_num
+    simp [centre, meanR, sumL]
+    norm_num
   have l2 : qLower 0 [-1, 1] = -1 := by
     simp [qLower, minL]
   have t2 : qTarget (-1 : ℝ) [-1, 1] = 1 := by
     rw [qTarget_eq]
     simp
-    norm_num
   refine ⟨⟨?_, by norm_num⟩, c2, ?_, ?_, ?_⟩
   · rw [c1, l1, qTarget_eq]; simp
   · rw [c2, l2]
   · rw [c2, l2, t2]
   · rw [c2, l2, t2]; norm_num
+
+/-- non-vacuity of `quadraticCvar_partial`: on `c = [0, 2]`, `lam = 1`, `tol = 0` (bracket
+hypothesis holds, see above) with `precision = 1/2` the model returns after two iterations, here
+with the exact quadratic CVaR `-1/2` -/
+example : quadraticCvar (1 : ℝ) 0 (1 / 2) 10 [[0, 2]] = .ok [-1 / 2] := by
+  norm_num [quadraticCvar, bisect, allLt, bisectLoop, maxWidth, maxL, minL, bisectStep, qTarget,
+    qObj, meanR, sumL, reluS]
 
 end PfVerif.C05QCVaR
